@@ -229,9 +229,16 @@ def run(ck):
             for st in (['center'] if der % 2 == 0 else ['center', 'upwind', 'forward', 'backward']):
                 combos.append((der, order, st))
     worst_or = F(0)
-    for der, order, st in combos:
+    # user-supplied offsets together with a non-periodic boundary: `order` stays what the caller says (closure width
+    # order + derivative, Neumann closure of order `order`), the interior rows carry the custom stencil
+    custom = [(2, 4, [-2, -1, 0, 1, 2]), (1, 4, [-3, -1, 1, 3]), (2, 2, [-1, 0, 1]), (1, 4, [-2, -1, 0, 1, 2]), (1, 3, [-1, 0, 1, 2]),
+              (3, 2, [-2, -1, 0, 1, 2]), (1, 2, [-1, 0, 1]), (2, 6, [-3, -2, -1, 0, 1, 2, 3])]
+    closure_cases = [(der, order, st, None) for der, order, st in combos] + [(der, order, 'custom', stp) for der, order, stp in custom]
+    for der, order, st, cst in closure_cases:
+        kw = dict(stencil_type=st) if cst is None else dict(steps=list(cst))
         try:
-            c0, s0 = ph.get_finite_difference_stencil(der, order, st)
+            c0, s0 = (ph.get_finite_difference_stencil(der, order, st) if cst is None
+                      else ph.get_finite_difference_stencil(derivative=der, order=order, steps=np.array(cst)))
         except Exception:
             continue
         span = int(max(s0) - min(s0))
@@ -239,9 +246,9 @@ def run(ck):
             for size in [order + der + 1, order + der + 4]:
                 vl, vr = F(rng.randint(-8, 8), 4), F(rng.randint(-8, 8), 4)
                 par = [{'val': float(vl)}, {'val': float(vr)}]
-                lab = ('closure', der, order, st, str(bc), size)
+                lab = ('closure', der, order, st if cst is None else str(cst), str(bc), size)
                 try:
-                    A, b = ph.get_finite_difference_matrix(derivative=der, order=order, stencil_type=st, dx=1.0, size=size, dim=1,
+                    A, b = ph.get_finite_difference_matrix(derivative=der, order=order, dx=1.0, size=size, dim=1, **kw,
                                                            bc=bc, bc_params=par)
                 except Exception as e:
                     ck.violation('get_finite_difference_matrix raised %s: %s' % (type(e).__name__, e),
@@ -267,7 +274,7 @@ def run(ck):
                     pr = poly_eval(c, xr) if bcr == 'dirichlet' else poly_eval(poly_der(c, 1), xr)
                     # vals must be floats: scale polynomial so boundary data are dyadic -> use val as float of exact fraction
                     # choose coefficients with denominators making pl, pr exactly representable is not guaranteed; use tolerance
-                    A2, b2 = ph.get_finite_difference_matrix(derivative=der, order=order, stencil_type=st, dx=1.0, size=size, dim=1,
+                    A2, b2 = ph.get_finite_difference_matrix(derivative=der, order=order, dx=1.0, size=size, dim=1, **kw,
                                                              bc=bc, bc_params=[{'val': float(pl)}, {'val': float(pr)}])
                     D2 = np.asarray(A2.todense(), dtype=float)
                     pd = poly_der(c, der)
@@ -284,7 +291,7 @@ def run(ck):
                                          match={'kind': 'closure-oracle', 'bc': str(bc)})
                             break
                 # ---- Coq validator on Dirichlet rows (extended by the boundary coefficient), unit boundary values
-                A1, b1 = ph.get_finite_difference_matrix(derivative=der, order=order, stencil_type=st, dx=1.0, size=size, dim=1,
+                A1, b1 = ph.get_finite_difference_matrix(derivative=der, order=order, dx=1.0, size=size, dim=1, **kw,
                                                          bc=bc, bc_params=[{'val': 1.0}, {'val': 1.0}])
                 D1 = np.asarray(A1.todense(), dtype=float)
                 sw_l, sw_r = int(-min(s0)), int(max(s0))
